@@ -298,7 +298,7 @@ class WrappersShim:
                                       bool(r.headers.get('Host')),
                                       te is not None and te.lower() == 'chunked',
                                       bool(p.should_keep_alive()) if p is not None else False,
-                                      te is not None and te != 'chunked' and te.lower() == 'chunked']])
+                                      False]])
         elif tag == 'errreq':
             Trace.calls.append([tag, list(r.protocol) + [r.method == 'HEAD']])
         else:
@@ -982,12 +982,26 @@ class C14(Prop):
         body = bytes(rng.choice(b'abcxyz0189') for _ in range(rng.randint(5, 9)))
         hosts = [('Host', 'a')]
         k1, k2 = 1 + len(body) // 3, 1 + 2 * len(body) // 3
-        wf = [(req_bytes(rng.choice(['POST', 'PUT']), '/echo', headers=hosts + [('Transfer-Encoding', 'chunked')],
-                         body=chunked([body[:k1], body[k1:k2], body[k2:]])), 'wf-chunked'),
-              (req_bytes('POST', '/echo', headers=hosts + [('Content-Length', str(len(body)))], body=body), 'wf-length')]
+        def chunked_msg(te):
+            return req_bytes(rng.choice(['POST', 'PUT']), '/echo', headers=hosts + [('Transfer-Encoding', te)],
+                             body=chunked([body[:k1], body[k1:k2], body[k2:]]))
+        # the coding name is case-insensitive: every letter case of 'chunked' x every kind of cut
+        cases_te = ['Chunked', 'CHUNKED', 'cHuNkEd']
+        wf = [(chunked_msg('chunked'), 'wf-chunked'),
+              (req_bytes('POST', '/echo', headers=hosts + [('Content-Length', str(len(body)))], body=body), 'wf-length')] + \
+             [(chunked_msg(te), 'wf-chunked-' + te) for te in cases_te]
         for data, kind in wf:
-            offs = list(range(1, len(data))) if (kind == 'wf-chunked' or tier != 'quick') else \
-                sorted(set(rng.sample(range(1, len(data)), 12) + list(range(len(data) - len(body) - 2, len(data)))))
+            if kind == 'wf-chunked' or tier != 'quick':
+                offs = list(range(1, len(data)))
+            elif kind.startswith('wf-chunked-'):
+                he = data.find(b'\r\n\r\n') + 4         # after the headers, inside the first size line, inside the data, before the chunk's
+                ts = chunked_tail_start(data)              # terminator, behind it, before / inside the last chunk, before the final CRLF
+                first_data = data.find(b'\r\n', he) + 2
+                offs = sorted(set([he, he + 1, first_data, first_data + 1, first_data + k1, first_data + k1 + 1, first_data + k1 + 2,
+                                   ts, ts + 1, ts + 3, len(data) - 2, len(data) - 1, rng.randrange(he, len(data))]))
+                offs = [o for o in offs if 0 < o < len(data)]
+            else:
+                offs = sorted(set(rng.sample(range(1, len(data)), 12) + list(range(len(data) - len(body) - 2, len(data)))))
             for off in offs:
                 cases.append({'secure': False, 'cls': kind, 'expect': 'one-message',
                               'ops': [['r', 0, l1(data[:off]), 'mut'], ['r', 0, l1(data[off:]), 'mut'], ['d', 0]]})
@@ -996,7 +1010,7 @@ class C14(Prop):
             for _ in range(3 if tier == 'quick' else 12):
                 cases.append({'secure': False, 'cls': kind + '-multicut', 'expect': 'one-message',
                               'ops': [['r', 0, l1(c), 'mut'] for c in cut_n(rng, data, rng.randint(2, 5))]})
-            if kind == 'wf-chunked':
+            if kind.startswith('wf-chunked'):
                 head_end = data.find(b'\r\n\r\n') + 4
                 p, ends = head_end, []
                 while True:                       # offsets just behind each chunk-size line and each chunk's CRLF
